@@ -24,11 +24,8 @@ import Nebula.Model.CertV1
 import Nebula.Model.CertV2
 import Nebula.Model.P256Sig
 import Nebula.Driver.Certverify
-<<<<<<< HEAD
 import Nebula.Driver.CertPemOps
-=======
 import Nebula.Driver.P256Twin
->>>>>>> eng-cert6
 
 namespace Nebula.Driver.Certcodec
 open Nebula.Driver Nebula.Net Nebula.Cert Nebula.Driver.Certsign
@@ -230,15 +227,11 @@ def step (s : Unit) (args : List String) (impl : String) : Unit × Out :=
       let verdict := if impl.startsWith "differs" then s!"bad copy-differs {impl}" else "ok"
       (s, { model := m, verdict := verdict, tag := if m == "same" then "copy:same" else "triv:copy-undecodable" })
     | _, _ => (s, badOp)
-<<<<<<< HEAD
-  | _ => (s, CertPemOps.pemStep args impl)   -- the PEM layer: Driver/CertPemOps.lean
-=======
   | _ =>
     -- p256n / swap / lows / twinblock: Driver/P256Twin.lean
     match P256Twin.step decode args impl with
     | some o => (s, o)
-    | none => (s, badOp)
->>>>>>> eng-cert6
+    | none => (s, CertPemOps.pemStep args impl)   -- the PEM layer: Driver/CertPemOps.lean
 
 def main : IO Unit := runEngine () step
 
